@@ -107,6 +107,7 @@ func runC10(c *Check, tier string) {
 	ruleR10c(c, li)
 	ruleR10d(c, li)
 	ruleR10e(c, li)
+	ruleR10f(c, li)
 }
 
 func ruleR10a(c *Check, li *lockerInfo) {
@@ -138,10 +139,47 @@ func ruleR10a(c *Check, li *lockerInfo) {
 
 // removal sites classified by the test that guards them
 func classifyRemovals(c *Check, li *lockerInfo) map[string][]ssa.CallInstruction {
+	return classifyRemovalsIn(c, li, li.Lock, true)
+}
+
+// holderJudge: the acquire loop may leave "is there a live holder?" to a helper that reads the lock file,
+// removes it when it is stale and answers with a bool. Returns that helper, its call in the loop and the
+// index of the bool among its results.
+func holderJudge(c *Check, li *lockerInfo) (*ssa.Function, *ssa.Call, int) {
+	for _, s := range engine.SitesIn(li.Lock) {
+		call, ok := s.(*ssa.Call)
+		if !ok || engine.LoopOf(call) == nil {
+			continue
+		}
+		h := call.Call.StaticCallee()
+		if h == nil || len(h.Blocks) == 0 || !engine.InPackage(h, "locking") || h == li.Lock {
+			continue
+		}
+		probes := false
+		for _, hs := range engine.SitesIn(h) {
+			for _, f := range c.G.Callees[hs] {
+				if engine.InPackage(f, "locking") && len(callsNamed(f, "os.FindProcess")) > 0 {
+					probes = true
+				}
+			}
+		}
+		if !probes || len(removesOf(h, li.PathField)) == 0 {
+			continue
+		}
+		res := h.Signature.Results()
+		for i := 0; i < res.Len(); i++ {
+			if res.At(i).Type().String() == "bool" {
+				return h, call, i
+			}
+		}
+	}
+	return nil, nil, -1
+}
+
+func classifyRemovalsIn(c *Check, li *lockerInfo, fn *ssa.Function, needLoop bool) map[string][]ssa.CallInstruction {
 	out := map[string][]ssa.CallInstruction{}
-	fn := li.Lock
 	for _, rm := range removesOf(fn, li.PathField) {
-		if engine.LoopOf(rm) == nil {
+		if needLoop && engine.LoopOf(rm) == nil {
 			out["cleanup"] = append(out["cleanup"], rm)
 			continue
 		}
@@ -235,11 +273,67 @@ func ruleR10b(c *Check, li *lockerInfo, rule string, reportCheckThenAct bool) {
 	fn := li.Lock
 	fname := c.P.FuncName(fn)
 	classes := classifyRemovals(c, li)
+	judge, judgeCall, judgeIdx := holderJudge(c, li)
+	if judge != nil {
+		for k, v := range classifyRemovalsIn(c, li, judge, false) {
+			classes[k] = append(classes[k], v...)
+		}
+	}
+	isWaitInstr := func(in ssa.Instruction) bool {
+		switch x := in.(type) {
+		case *ssa.Select:
+			return x.Blocking
+		case *ssa.Call:
+			return engine.CalleeName(x) == "time.Sleep"
+		}
+		return false
+	}
+	// the judge's answer at its call site in the loop
+	judgeSays := func(truth string) func(b *ssa.BasicBlock, i int) bool {
+		return engine.CutEdgesWhere(func(a engine.Atom) bool {
+			if judgeCall == nil || a.Op != truth {
+				return false
+			}
+			ex, ok := a.V.(*ssa.Extract)
+			return ok && ex.Tuple == ssa.Value(judgeCall) && ex.Index == judgeIdx
+		})
+	}
 	for _, cls := range []string{"unreadable", "unparsable", "dead-pid"} {
 		rms := classes[cls]
 		key := "stale-recovery/" + cls + "/" + fname
 		if len(rms) == 0 {
 			c.Bad(rule, key, "a lock file that is "+cls+" (left by a process that died, e.g. between the exclusive create and the PID write) is never removed: it blocks every later build forever", c.P.Pos(fn.Pos()))
+			continue
+		}
+		if judge != nil && rms[0].Parent() == judge {
+			// the helper answers "no live holder" after the removal, and on that answer the loop retries at once
+			answersDead := true
+			engine.PathExists(judge, rms[0], func(in ssa.Instruction) bool {
+				r, ok := in.(*ssa.Return)
+				if !ok || in.Parent() != judge || judgeIdx >= len(r.Results) {
+					return false
+				}
+				if k, isK := engine.BoolConst(r.Results[judgeIdx]); !isK || k {
+					answersDead = false
+				}
+				return false
+			}, engine.PathQuery{Shallow: true})
+			retries := false
+			if lp := engine.LoopOf(judgeCall); lp != nil {
+				toHeader := func(in ssa.Instruction) bool { return in == lp.Header.Instrs[0] }
+				retries, _ = engine.PathExists(fn, judgeCall, toHeader, engine.PathQuery{CutInstr: isWaitInstr, CutEdge: judgeSays("true"), Shallow: true})
+			}
+			c.Require(answersDead && retries, rule, key, "the "+cls+" lock file is removed, the helper answers 'no live holder' and acquisition is retried at once", "after classifying the lock file as "+cls+" the loop does not retry the acquisition", c.P.InstrPos(rms[0]))
+			for _, rm := range rms {
+				if !reportCheckThenAct {
+					break
+				}
+				c.Bad(rule, "stale-removal-check-then-act/"+cls+"/"+fname, "os.Remove(lock path) after testing the file's content is not atomic with that test: "+map[string]string{
+					"unreadable": "a contender that finds the file unreadable deletes whatever is there now",
+					"unparsable": "an empty file is the normal state of a lock between the holder's exclusive create and its separate PID write, so a contender deletes a live lock and both proceed",
+					"dead-pid":   "between reading a dead PID and removing the path another contender may already have removed the stale file and created its own lock, which is then deleted",
+				}[cls], c.P.InstrPos(rm))
+			}
 			continue
 		}
 		// after the removal the loop retries immediately: the header is reached without a blocking wait
@@ -289,6 +383,25 @@ func ruleR10b(c *Check, li *lockerInfo, rule string, reportCheckThenAct bool) {
 			}
 			return false
 		})
+		if judge != nil {
+			// the helper says 'alive' only past the probe's true edge
+			probeTrue := alive
+			honest := true
+			engine.PathExists(judge, nil, func(in ssa.Instruction) bool {
+				r, ok := in.(*ssa.Return)
+				if !ok || in.Parent() != judge || judgeIdx >= len(r.Results) {
+					return false
+				}
+				if k, isK := engine.BoolConst(r.Results[judgeIdx]); !isK || k {
+					honest = false
+				}
+				return false
+			}, engine.PathQuery{CutEdge: probeTrue, Shallow: true})
+			if honest {
+				js := judgeSays("true")
+				alive = func(b *ssa.BasicBlock, i int) bool { return probeTrue(b, i) || js(b, i) }
+			}
+		}
 		bad := ""
 		for b := range lp.Body {
 			for _, in := range b.Instrs {
@@ -586,4 +699,56 @@ func ruleR10e(c *Check, li *lockerInfo) {
 	}
 	sort.Strings(bad)
 	c.Require(len(bad) == 0, "R10e", "lock-path-is-workspace-identity/"+li.PathField.String(), "the lock path depends only on the grog root and the workspace root", "the lock path also depends on "+strings.Join(bad, ", ")+": two builds of the same workspace that differ in it (a native and a --platform build, say) lock different files and run at the same time", c.P.Pos(li.Lock.Pos()))
+}
+
+// R10f: nobody but the holder takes the lock file away. A command that removes a directory above the lock file
+// (the workspace's cache directory, or the whole grog root) removes the lock of a build that is running: the
+// next build finds no lock file and starts next to it.
+func ruleR10f(c *Check, li *lockerInfo) {
+	c.Rule("R10f", "outside internal/locking, every os.Remove/os.RemoveAll whose path derives from the workspace's grog directory or the grog root (the directories above the lock file) is executed by a command that acquired the workspace lock first", 1)
+	rootDir := c.P.Func("config", "WorkspaceConfig", "GetWorkspaceRootDir")
+	rootKey := fk("config.WorkspaceConfig", "Root")
+	n := 0
+	for _, s := range c.G.CallsTo("os.RemoveAll", "os.Remove") {
+		fn := s.Parent()
+		if engine.InPackage(fn, "locking") || !engine.IsFirstParty(pkgPathOf(fn)) || len(s.Common().Args) == 0 {
+			continue
+		}
+		// only the path itself (not a path below it: a Join with a further element names something else)
+		above := false
+		for _, o := range engine.Origins(s.Common().Args[0]) {
+			if o == nil {
+				continue
+			}
+			if call, _ := engine.CallOf(o); call != nil && rootDir != nil && call.Common().StaticCallee() == rootDir {
+				above = true
+			}
+			if ld, ok := o.(*ssa.UnOp); ok {
+				if fa, ok := ld.X.(*ssa.FieldAddr); ok && engine.FieldKeyOf(fa.X.Type(), fa.Field) == rootKey {
+					above = true
+				}
+			}
+		}
+		if !above {
+			continue
+		}
+		n++
+		top := engine.TopFunc(fn)
+		locked := false
+		for _, l := range callsToFn(c, top, li.Lock) {
+			if r, _ := engine.PathExists(top, nil, engine.IsInstr(s), engine.PathQuery{CutInstr: engine.IsInstr(l)}); !r || fn != top {
+				locked = true
+			}
+		}
+		name := c.P.FuncName(fn)
+		for use, run := range cobraCommands(c) {
+			if run == top || run == fn {
+				name = "grog " + use
+			}
+		}
+		c.Require(locked, "R10f", "lock-dir-removed-under-lock/"+name, "the command holds the workspace lock when it removes the directory", "the directory that holds the lock file is removed without holding the workspace lock: run while a build is in progress it deletes that build's lock file, and the next build starts although the first is still running", c.P.InstrPos(s))
+	}
+	if n == 0 {
+		c.OK("R10f", "lock-dir-removed-under-lock", "no removal of a directory above the lock file outside internal/locking", "-")
+	}
 }
